@@ -58,9 +58,13 @@ struct Model {
 };
 
 static uint32_t g_stamp = 0;
+// key family of the sketch clauses: "sketch", or "sketch-deep-subnormal" for streams whose weights are so small
+// that 1/weight overflows (kept apart so that a library that does not support them is one identifiable finding)
+static const char* g_fam = "sketch";
+static const char* g_mfam = "merge";
 
 static void check_draw(const std::vector<uint64_t>& got, const Model& m, double c, const char* how, const std::function<std::string()>& ctx) {
-  const std::string fam = "sketch";
+  const std::string fam = g_fam;
   const double fl = std::floor(c), ce = std::ceil(c);
   const double sz = static_cast<double>(got.size());
   VF_CHECK(sz == fl || sz == ce, fam + "|" + how + "|size-not-floor-or-ceil-of-c", ctx() + " size=" + std::to_string(got.size()) + " c=" + str(c));
@@ -73,6 +77,7 @@ static void check_draw(const std::vector<uint64_t>& got, const Model& m, double 
   if (m.all_equal && m.n <= m.k && m.n > 0) {
     VF_CHECK(got.size() == m.n, fam + "|" + how + "|equal-weights-n-le-k-item-dropped", ctx() + " size=" + std::to_string(got.size()) + " c=" + str(c));
     count("equal_weights_all_kept_checks");
+    if (m.first_w < std::numeric_limits<double>::min()) count("subnormal_equal_all_kept_checks");
   }
 }
 
@@ -80,14 +85,14 @@ static void observe(const EB& s, const Model& m, const char* after, int draws) {
   auto ctx = [&]() {
     return std::string("after ") + after + " k=" + std::to_string(m.k) + " n=" + std::to_string(m.n) + " cum=" + str(static_cast<double>(m.cum)) + " wmax=" + str(m.wmax) + (m.merged ? " (merged)" : "");
   };
-  const std::string fam = "sketch";
+  const std::string fam = g_fam;
   VF_CHECK(s.get_n() == m.n, fam + "|get_n", ctx() + " got=" + std::to_string(s.get_n()));
   VF_CHECK(s.get_k() == m.k, fam + "|get_k", ctx() + " got=" + std::to_string(s.get_k()));
   VF_CHECK(s.is_empty() == (m.n == 0), fam + "|is_empty", ctx());
   VF_CHECK(close_rel(s.get_cumulative_weight(), m.cum, 1e-12), fam + "|cumulative_weight", ctx() + " got=" + str(s.get_cumulative_weight()));
   const double c = s.get_c();
   const double want = m.n == 0 ? 0.0 : std::min<double>(m.k, static_cast<double>(m.cum / m.wmax));
-  VF_CHECK(std::fabs(c - want) <= 1e-9 * want, fam + "|c-not-min-k-cumwt-over-wmax", ctx() + " c=" + str(c) + " want=" + str(want));
+  VF_CHECK(std::fabs(c - want) <= 1e-9 * want /* false for NaN */, fam + "|c-not-min-k-cumwt-over-wmax", ctx() + " c=" + str(c) + " want=" + str(want));
   // stamp the inputs of this model so that provenance is a flag test
   ++g_stamp;
   for (uint64_t id : m.ids) owner_gen[id] = g_stamp;
@@ -113,9 +118,9 @@ static void observe(const EB& s, const Model& m, const char* after, int draws) {
 }
 
 // ---------------------------------------------------------------- weights
-enum Kind { K_UNIFORM, K_EXPSPREAD, K_HEAVYTAIL, K_EQUAL, K_GIANT, K_INCREASING, K_DECREASING, K_DYADIC, K_TWOLEVEL, K_PATTERN, K_NKINDS };
+enum Kind { K_UNIFORM, K_EXPSPREAD, K_HEAVYTAIL, K_EQUAL, K_GIANT, K_INCREASING, K_DECREASING, K_DYADIC, K_TWOLEVEL, K_PATTERN, K_SUBNORMAL, K_SUBNORMAL_MIX, K_HUGE, K_NKINDS, K_DEEP_SUBNORMAL = K_NKINDS };
 static const char* kind_name(int k) {
-  static const char* n[] = {"uniform", "expspread", "heavytail", "equal", "giant", "increasing", "decreasing", "dyadic", "twolevel", "pattern_1_1_half"};
+  static const char* n[] = {"uniform", "expspread", "heavytail", "equal", "giant", "increasing", "decreasing", "dyadic", "twolevel", "pattern_1_1_half", "subnormal", "subnormal_mix", "huge", "deep_subnormal"};
   return n[k];
 }
 struct WGen {
@@ -130,7 +135,16 @@ struct WGen {
       case K_GIANT: giant_pos = r.below(n); p1 = r.pick({1e3, 1e9, 1e15}); break;
       case K_INCREASING: case K_DECREASING: geometric = r.coin(); p1 = std::exp(std::log(r.pick({10.0, 1e6, 1e12})) / static_cast<double>(n)); break;
       case K_TWOLEVEL: p1 = r.pick({2.0, 10.0, 1000.0}); break;
+      case K_SUBNORMAL: case K_SUBNORMAL_MIX: case K_HUGE: p1 = static_cast<double>(r.below(3)); break;
+      case K_DEEP_SUBNORMAL: p1 = static_cast<double>(r.below(4)); break;
       default: break;
+    }
+  }
+  static double subnormal(Rng& r, int variant) {
+    switch (variant) {
+      case 0: return std::ldexp(1.0, -1023);                                        // all equal
+      case 1: return std::ldexp(1.001 + 0.99 * r.unit(), -1024);                    // (2^-1024, 2^-1023)
+      default: return std::ldexp(static_cast<double>(65 + r.below(191)), -1030);    // j * 2^-1030, j in 65..255
     }
   }
   double next(Rng& r, uint64_t i) {
@@ -144,6 +158,17 @@ struct WGen {
       case K_DECREASING: return geometric ? base * std::pow(p1, static_cast<double>(n - 1 - (i % n))) : base * static_cast<double>(2 * n - (i % n));
       case K_DYADIC: return static_cast<double>(1 + r.below(64)) / 16.0;
       case K_TWOLEVEL: return r.chance(0.2) ? base * p1 : base;
+      // positive subnormal doubles whose reciprocal is still finite: (2^-1024, 2^-1022)
+      case K_SUBNORMAL: return subnormal(r, static_cast<int>(p1));
+      // subnormal and tiny normal weights mixed
+      case K_SUBNORMAL_MIX: return r.coin() ? subnormal(r, 1 + static_cast<int>(r.below(2))) : std::ldexp(1.0 + r.unit(), -1022 + static_cast<int>(r.below(6)));
+      // around 1e300: sums of a few thousand stay finite
+      case K_HUGE: return p1 == 0 ? 1e300 : (p1 == 1 ? 1e300 * (0.5 + r.unit()) : (r.chance(0.2) ? 1e300 : 1e290 * (1 + r.unit())));
+      // so small that 1/w overflows: denorm_min()*j, 1e-310, denorm_min(), 2^-1030*(1+u)
+      case K_DEEP_SUBNORMAL: {
+        const double dm = std::numeric_limits<double>::denorm_min();
+        switch (static_cast<int>(p1)) { case 0: return dm * static_cast<double>(1 + r.below(1000)); case 1: return 1e-310; case 2: return dm; default: return std::ldexp(1.0 + r.unit(), -1030); }
+      }
       case K_PATTERN: return (i % 3 == 2) ? 0.5 : 1.0;   // 1, 1, 0.5, ... : fractional c with full items while c < k
     }
     return 1.0;
@@ -215,7 +240,11 @@ static bool assignment_probe(Rng& r, Live& L) {
     const uint64_t cnt = 1 + r.below(std::min<uint64_t>(150, 2ull * L.m.k + 5));
     const double scale = L.m.n ? static_cast<double>(L.m.cum / L.m.n) : 1.0;
     std::vector<std::pair<uint64_t, double>> seq;
-    for (uint64_t i = 0; i < cnt; ++i) { const double w = scale * (r.chance(0.1) ? 5 + 20 * r.unit() : 0.05 + 2 * r.unit()); if (w > 0 && std::isfinite(w)) seq.emplace_back(new_id(w), w); }
+    for (uint64_t i = 0; i < cnt; ++i) {
+      double w = scale * (r.chance(0.1) ? 5 + 20 * r.unit() : 0.05 + 2 * r.unit());
+      if (w < 5.6e-309) w = scale * (1 + r.unit());   // stay out of the range where 1/w overflows (that is the deep-subnormal family's business)
+      if (w > 0 && std::isfinite(w)) seq.emplace_back(new_id(w), w);
+    }
     const uint64_t X = r.next();
     random_utils::rand.seed(X); for (auto& q : seq) L.sk->update(q.first, q.second);
     random_utils::rand.seed(X); for (auto& q : seq) t->update(q.first, q.second);
@@ -283,21 +312,26 @@ static uint64_t pick_n(Rng& r, uint32_t k, uint64_t cap) {
 
 static void explore_case(Rng& r) {
   const bool T = G().thorough();
-  const size_t nsk = r.chance(0.35) ? 1 : static_cast<size_t>(r.range(2, 4));
+  // deep-subnormal cases: weights whose reciprocal overflows; kept in the c < k regime (n <= k), where the closed form
+  // for c needs no quotient of two such numbers; no hostile ops / continuations (they could push n above k)
+  const bool deep = r.chance(0.012);   // rare: this regime is a recorded finding (NaN c, SEGV) and every crash costs a shard restart
+  g_fam = deep ? "sketch-deep-subnormal" : "sketch";
+  g_mfam = deep ? "merge-deep-subnormal" : "merge";
+  const size_t nsk = deep ? static_cast<size_t>(r.range(1, 2)) : (r.chance(0.35) ? 1 : static_cast<size_t>(r.range(2, 4)));
   const uint64_t cap = T ? 4000 : 1200;
-  const bool hostile = r.chance(0.5);
+  const bool hostile = !deep && r.chance(0.5);
   const int common_kind = static_cast<int>(r.below(K_NKINDS));
   const bool same_equal = r.chance(0.2);            // all sketches get the same constant weight
   const uint64_t eq_seed = r.next();
   std::vector<Live> live(nsk);
-  std::string d = "sketches=";
+  std::string d = deep ? "{crashtag:deep-subnormal} sketches=" : "sketches=";
   uint64_t pos = 0;
   for (size_t i = 0; i < nsk; ++i) {
     Live& L = live[i];
-    L.m.k = pick_k(r);
+    L.m.k = deep ? static_cast<uint32_t>(r.range(130, 500)) : pick_k(r);
     L.sk.reset(new EB(L.m.k));
-    const uint64_t n = r.chance(0.08) ? 0 : pick_n(r, L.m.k, cap);
-    const int kind = same_equal ? K_EQUAL : (r.coin() ? common_kind : static_cast<int>(r.below(K_NKINDS)));
+    const uint64_t n = deep ? r.below(61) : (r.chance(0.08) ? 0 : pick_n(r, L.m.k, cap));
+    const int kind = deep ? static_cast<int>(K_DEEP_SUBNORMAL) : (same_equal ? K_EQUAL : (r.coin() ? common_kind : static_cast<int>(r.below(K_NKINDS))));
     d += "(k=" + std::to_string(L.m.k) + ",n=" + std::to_string(n) + "," + kind_name(kind) + ")";
     describe("building " + d);
     WGen g; Rng gr(same_equal ? eq_seed : r.next()); g.init(gr, kind, n);
@@ -306,6 +340,10 @@ static void explore_case(Rng& r) {
     uint64_t p = 0;
     if (!feed(r, L, g, n, p, hostile, obs_every)) return;
     count(std::string("stream_kind_") + kind_name(kind));
+    if (deep && r.coin()) {
+      try { std::unique_ptr<EB> t(new EB(round_trip(*L.sk, r))); L.sk = std::move(t); observe(*L.sk, L.m, "round trip", 2); count("deep_subnormal_round_trip"); }
+      catch (const std::exception& e) { checked(); fail(std::string(g_fam) + "|round-trip|throws", d + " what=" + e.what()); return; }
+    }
     if (L.m.k == 1) count("k1_sketches");
     pos += n;
   }
@@ -327,22 +365,22 @@ static void explore_case(Rng& r) {
       const bool arg_empty = B.m.n == 0, target_empty = A.m.n == 0;
       try {
         if (rvalue) { EB tmp(*B.sk); A.sk->merge(std::move(tmp)); } else A.sk->merge(*B.sk);
-      } catch (const std::exception& e) { checked(); fail("merge|throws", md + " what=" + e.what()); return; }
+      } catch (const std::exception& e) { checked(); fail(std::string(g_mfam) + "|throws", md + " what=" + e.what()); return; }
       A.m.absorb(B.m);
       count(std::string("merge_") + dir); count(rvalue ? "merge_rvalue" : "merge_lvalue");
       count(arg_heavier ? "merge_arg_heavier_swapped" : "merge_arg_lighter");
       if (arg_empty) count("merge_arg_empty"); if (target_empty) count("merge_target_empty");
       // merge-specific keys first (so that a k/n/weight mistake is attributed to the merge)
-      VF_CHECK(A.sk->get_n() == A.m.n, "merge|n-not-sum", md + " got=" + std::to_string(A.sk->get_n()));
-      VF_CHECK(close_rel(A.sk->get_cumulative_weight(), A.m.cum, 1e-12), "merge|cumulative-weight-not-sum", md + " got=" + str(A.sk->get_cumulative_weight()));
-      if (arg_empty || target_empty) VF_CHECK(A.sk->get_k() == A.m.k, "merge|k-not-min-when-one-side-empty", md + " got=" + std::to_string(A.sk->get_k()) + " want=" + std::to_string(A.m.k));
-      else VF_CHECK(A.sk->get_k() == A.m.k, "merge|k-not-min", md + " got=" + std::to_string(A.sk->get_k()) + " want=" + std::to_string(A.m.k));
+      VF_CHECK(A.sk->get_n() == A.m.n, std::string(g_mfam) + "|n-not-sum", md + " got=" + std::to_string(A.sk->get_n()));
+      VF_CHECK(close_rel(A.sk->get_cumulative_weight(), A.m.cum, 1e-12), std::string(g_mfam) + "|cumulative-weight-not-sum", md + " got=" + str(A.sk->get_cumulative_weight()));
+      if (arg_empty || target_empty) VF_CHECK(A.sk->get_k() == A.m.k, std::string(g_mfam) + "|k-not-min-when-one-side-empty", md + " got=" + std::to_string(A.sk->get_k()) + " want=" + std::to_string(A.m.k));
+      else VF_CHECK(A.sk->get_k() == A.m.k, std::string(g_mfam) + "|k-not-min", md + " got=" + std::to_string(A.sk->get_k()) + " want=" + std::to_string(A.m.k));
       A.m.k = A.sk->get_k();   // a k mismatch has been reported once; do not let it cascade into every later clause
       observe(*A.sk, A.m, "merge", 3);
       if (!rvalue) observe(*B.sk, before_arg, "being merged from (lvalue argument must be unchanged)", 1);
-      if (r.chance(0.25)) { describe(md + " then assignment probe"); if (!assignment_probe(r, A)) return; count("assign_after_merge"); }
+      if (!deep && r.chance(0.25)) { describe(md + " then assignment probe"); if (!assignment_probe(r, A)) return; count("assign_after_merge"); }
       // keep streaming into the merged sketch
-      if (r.chance(0.6)) {
+      if (!deep && r.chance(0.6)) {
         const uint64_t extra = 1 + r.below(3ull * A.m.k + 10);
         WGen g; g.init(r, static_cast<int>(r.below(K_NKINDS)), extra);
         describe(md + " then " + std::to_string(extra) + " more updates");
@@ -465,6 +503,7 @@ static void stat_cell(uint64_t idx, Rng& r) {
 void run_case(uint64_t idx, Rng& r) {
   W.clear(); owner_gen.clear(); seen_flag.clear(); g_stamp = 0;
   const uint64_t nstat = G().thorough() ? NSTAT_THOROUGH : NSTAT_QUICK;
+  g_fam = "sketch"; g_mfam = "merge";
   if (idx < nstat) { stat_cell(idx, r); return; }
   const uint64_t s = r.next();
   random_utils::rand.seed(s);
